@@ -225,10 +225,46 @@ func Sub(a, b T) T {
 	return app(SInt, "-", a, b)
 }
 func Mul(a, b T) T { return app(SInt, "*", a, b) }
-func Lt(a, b T) T  { return app(SBool, "<", a, b) }
-func Le(a, b T) T  { return app(SBool, "<=", a, b) }
-func Gt(a, b T) T  { return app(SBool, ">", a, b) }
-func Ge(a, b T) T  { return app(SBool, ">=", a, b) }
+func cmpLit(op string, a, b T) (T, bool) {
+	la, ok1 := isLit(a)
+	lb, ok2 := isLit(b)
+	if !ok1 || !ok2 {
+		return T{}, false
+	}
+	switch op {
+	case "<":
+		return BoolLit(la < lb), true
+	case "<=":
+		return BoolLit(la <= lb), true
+	case ">":
+		return BoolLit(la > lb), true
+	}
+	return BoolLit(la >= lb), true
+}
+func Lt(a, b T) T {
+	if r, ok := cmpLit("<", a, b); ok {
+		return r
+	}
+	return app(SBool, "<", a, b)
+}
+func Le(a, b T) T {
+	if r, ok := cmpLit("<=", a, b); ok {
+		return r
+	}
+	return app(SBool, "<=", a, b)
+}
+func Gt(a, b T) T {
+	if r, ok := cmpLit(">", a, b); ok {
+		return r
+	}
+	return app(SBool, ">", a, b)
+}
+func Ge(a, b T) T {
+	if r, ok := cmpLit(">=", a, b); ok {
+		return r
+	}
+	return app(SBool, ">=", a, b)
+}
 
 // EDiv / EMod: SMT-LIB div/mod are Euclidean for positive divisors (floor for b>0).
 func EDiv(a, b T) T { return app(SInt, "div", a, b) }
